@@ -5,7 +5,7 @@ const char *ntC01 = "non-trivial = saved object has >=1 frame AND (a user parame
 
 CaseResult runC01(const Case &c, RunCtx &ctx) {
     CaseResult r;
-    Interp in(ctx);
+    Interp in(ctx, "C01");
     CountingListener L; in.L = &L;
     in.run(c);
     std::string why;
